@@ -518,6 +518,39 @@ static void run(void) {
                 vf_add("disk.covers_globe", 1);
             }
     }
+    /* every radius once: k = 0 .. 64 (thorough 0 .. 140) on a dense fine-resolution disk far from any pentagon (the fast path,
+     * and the safe variant called directly) and on a disk that has a pentagon inside (origin about k/2 steps from it: gridDisk and
+     * gridDiskDistances fall back to the safe search).  The output array doubles as a hash set of 3k(k+1)+1 slots: a probing
+     * scheme can be wrong for particular k only. */
+    {
+        int kmax = VF_T(64, 140);
+        for (int k = 0; k <= kmax; k++) {
+            if (VF_MINE(idx++)) {
+                case_disk(vf_rand_cell(&r, 7 + (int)vf_below(&r, 9)), k);
+                vf_add("disk.k_sweep", 1);
+            }
+            if (VF_MINE(idx++)) {
+                int res = 5 + (int)vf_below(&r, 8);
+                H3Index p = vf_make_cell(res, REF_PENT_BC[vf_below(&r, 12)], (int[15]){0}), o = p;
+                int64_t szr;
+                int kr = k / 2 > 0 ? k / 2 : 1;
+                maxGridDiskSize(kr, &szr);
+                H3Index *ring = calloc((size_t)szr, 8);
+                if (!gridDisk(p, kr, ring)) {
+                    for (int t = 0; t < 50; t++) {
+                        H3Index c = ring[vf_below(&r, (uint64_t)szr)];
+                        if (c) {
+                            o = c;
+                            break;
+                        }
+                    }
+                }
+                free(ring);
+                case_disk(o, k);
+                vf_add("disk.k_sweep_pentagon_inside", 1);
+            }
+        }
+    }
     /* disks that wrap the globe at the coarsest resolutions */
     static const int KW[3] = {12, 25, 45};
     for (int res = 0; res <= 2; res++) {
